@@ -159,6 +159,31 @@ def trace [Zero R] [Add R] (a : Tensor R) (in0 in1 : List Nat) : Except Err (Ten
             blocks := (sortDedup keyLt (cand.map (·.1))).map (fun k =>
               (k, sumBlocks ((cand.filter (fun kb => kb.1 == k)).map (·.2)))) }
 
+/-! ### diagonal operand -/
+
+/-- value of a diagonal tensor (model: square 2-d blocks with key `[γ, γ]`) in sector `γ` at position `q` -/
+def diagVal [Zero R] (d : Tensor R) (γ : Charge) (q : Nat) : R :=
+  match d.get? [γ, γ] with
+  | none => 0
+  | some B => B.val [q, q]
+
+/-- `d.broadcast(a, axes=ax)` (`_contractions.py:broadcast`): leg `ax` of `a` is multiplied by the diagonal of `d`, sector by
+sector.  Sectors are matched by charge only (no signature is compared); blocks of `a` whose sector is absent from `d` are dropped;
+signature, total charge and leg order are those of `a` (a diagonal `a` stays diagonal). -/
+def broadcast [Zero R] [Mul R] (d a : Tensor R) (ax : Nat) : Except Err (Tensor R) :=
+  if ¬ d.isdiag then .error .diag
+  else if a.sym ≠ d.sym then .error .sym
+  else if ax ≥ a.rank then .error .axes
+  else
+    let sel := a.blocks.filter (fun kb => (d.get? [kb.1.getD ax [], kb.1.getD ax []]).isSome)
+    if ¬ sel.all (fun kb =>
+        match d.get? [kb.1.getD ax [], kb.1.getD ax []] with
+        | some B => B.shape.getD 0 0 == kb.2.shape.getD ax 0
+        | none => true) then .error .bondDim
+    else
+      .ok { a with blocks := sel.map (fun kb =>
+              (kb.1, ⟨kb.2.shape, fun i => diagVal d (kb.1.getD ax []) (i.getD ax 0) * kb.2.val i⟩)) }
+
 /-! ### legs -/
 
 /-- `add_leg(axis, s, t)`: a new one-dimensional leg of charge `t` (reduced to canonical range),
